@@ -4198,3 +4198,37 @@ let soft_threshold_px f tval =
       (if qltb f1 (qopp tval)
        then { qnum = (Zpos XH); qden = XH }
        else { qnum = Z0; qden = XH }))
+
+(** val uf_find : nat -> z list -> z -> z list * z **)
+
+let rec uf_find fuel p i =
+  match fuel with
+  | O -> (p, i)
+  | S k ->
+    let pi = nthZ Z0 p i in
+    if Z.eqb pi i
+    then (p, i)
+    else let r = uf_find k p pi in ((updZ (fst r) i (snd r)), (snd r))
+
+(** val uf_join : nat -> z list -> z -> z -> z list **)
+
+let uf_join fuel p i j =
+  let a = uf_find fuel p i in
+  let b = uf_find fuel (fst a) j in updZ (fst b) (snd a) (snd b)
+
+(** val uf_classes : arr -> arr -> z list **)
+
+let uf_classes f bc =
+  let n0 = length f.data in
+  let joined =
+    fold_left (fun p ij -> uf_join n0 p (fst ij) (snd ij)) (label_pairs f bc)
+      (init_classes f)
+  in
+  fold_left (fun p i ->
+    if Z.eqb (nthZ Z0 p i) (Zneg XH) then p else fst (uf_find n0 p i))
+    (zseq Z0 n0) joined
+
+(** val uf_label : arr -> arr -> z list * z **)
+
+let uf_label f bc =
+  renumber (Zneg XH) (uf_classes f bc)
